@@ -194,3 +194,28 @@ package mem
 //@   loop 0: invariant storageWF(s)
 //@   loop 0: invariant int(currAddr) == int(address) + int(dataOffset) && int(dataOffset) <= len(data)
 //@   loop 0: invariant int(address) + len(data) <= int(s.capacity)
+
+// ---- C20 / C07: storage checkpoint loading ----
+
+//@ ghost var loaded set
+
+//@ fn readUint64
+//@   property C20
+//@   assigns nothing
+
+//@ fn (*Storage).LoadCheckpoint
+//@   property C20
+//@   requires storageWF(s)
+//@   label C20.load.error.unchanged
+//@   ensures result != nil ==> s.data == old(s.data) && s.capacity == old(s.capacity) && s.unitSize == old(s.unitSize)
+//@   label C20.load.wf
+//@   ensures result == nil ==> storageWF(s) && s.capacity == old(s.capacity) && s.unitSize == old(s.unitSize)
+//@   label C20.load.exact
+//@   ensures result == nil ==> (forall k uint64 :: k in s.data ==> loaded[k])
+//@   label C20.load.freshunits
+//@   ensures result == nil ==> (forall k uint64 :: k in s.data ==> s.data[k] > old(allocTop))
+//@   assigns s.data
+//@   loop 0: ghost loaded = emptyset
+//@   loop 0: backedge loaded = upd(loaded, addr, true)
+//@   loop 0: invariant data != nil && fresh(data) && storageWF(s) && unchanged(s.data) && unchanged(s.capacity) && unchanged(s.unitSize)
+//@   loop 0: invariant forall k uint64 :: k in data ==> loaded[k] && data[k] != nil && data[k] > old(allocTop) && len(data[k].data) == int(s.unitSize)
